@@ -491,6 +491,13 @@ theorem step_waitChan (s : State) (op : Op) (h : WaitChan s) : WaitChan (step s 
         split
         · exact dropCheckout_waitChan h r
         · exact h
+  | cancelOff r =>
+    simp only [step]
+    cases hh : s.held r with
+    | some p =>
+      simp only []
+      exact abortTask_waitChan ((h.frame (CFrame.of_eq (s' := { s with held := upd s.held r none }) rfl rfl)).frame (dropPooled_cframe none _ p)) _
+    | none => exact h
   | dialDone r o =>
     simp only [step]
     split
